@@ -38,7 +38,8 @@ MANIFEST = {
             'ClientComponent.advance.'
             '  Third session: the forward flag published by advance() is observed over generated things (single/bulk, tasks bound to a pilot or not, pilots, every state, other keyword arguments).'
             '  Two threads (of one component or of two components of the process) advance different things with different forward flags at the same time (LINE perturbation of advance/publish): every update is published exactly once with its own flag.'
-            '  One registry lookup of one side may fail once while the side wires itself: the side refuses to start, or every rule still holds.',
+            '  One registry lookup of one side may fail once while the side wires itself: the side refuses to start, or every rule still holds.'
+            '  RPC round trips across the proxy: the responder builds the result from the request as it arrived on its side; every other side sees the result exactly once.',
     'note': 'transport is the in-memory shim (one total order per pubsub, no '
             'loss): PUB/SUB slow-joiner loss of real ZMQ is outside the check; '
             'the proxy is a shared pubsub as in proxy.py.'}
